@@ -86,6 +86,35 @@ func VerifHarness_C17_Subcommands() {
 	verifReach("ran")
 }
 
+// (1b) the history sub-command on a history that holds entries (left there by real searches):
+// every flag / limit / pattern combination finishes without crashing
+func VerifHarness_C17_HistoryCommands() {
+	home := verifFSHome()
+	dbPath := home + "/db/commands.yml"
+	c17DB(dbPath)
+	nsearch := verifIntRange("searches", 1, 3)
+	for k, q := range []string{"compress directory", "size of directory", "compress file"}[:nsearch] {
+		_, p := c17Run(q, "--database", dbPath)
+		verifAssert(!p, "C17: every documented sub-command starts and finishes without crashing")
+		_ = k
+	}
+	args := []string{"history"}
+	switch verifIntRange("mode", 0, 3) {
+	case 1:
+		args = append(args, "--top")
+	case 2:
+		args = append(args, "--stats")
+	case 3:
+		args = append(args, []string{"comp", "directory", "zzz", "COMPRESS"}[verifIntRange("pattern", 0, 3)])
+	}
+	if verifBool("withLimit") {
+		args = append(args, "--limit", []string{"-5", "-1", "0", "1", "2", "3", "100"}[verifIntRange("limit", 0, 6)])
+	}
+	_, panicked := c17Run(args...)
+	verifAssert(!panicked, "C17: every documented sub-command starts and finishes without crashing")
+	verifReach("ran")
+}
+
 // (2) a search prints the engine's results, in rank order, never more than the limit in force,
 // without escape sequences when colour is off, and leaves one newest history entry
 func VerifHarness_C17_SearchOutput() {
